@@ -60,6 +60,51 @@ def run(tier, rep):
                     rep.violation(what, {'harness': entry, 'inputs': v['inputs'], 'schedule': v.get('tags'), 'msg': v['msg'], 'native': detail})
                 else:
                     rep.inconc('schedule-dependent counterexample not confirmed by the race detector: ' + what)
+        # histories over accepted and rejected specifications (sequential)
+        cfg = lr.spec_cfg(sfs, extra, 'harnessC17History', tier, opaque_pkgs=['math/rand'], max_steps=80000000, max_violations=6)
+        res = run_gosym(cfg, sc, 'history', timeout=6 * 3600)
+        merge_gosym(rep, res, 'spec.Parse + Spec.DFA of every ordered pair of 7 specifications (accepted and rejected ones): the outcome of the first is the same before and after the second')
+        for v in (res.get('violations') or [])[:3]:
+            outcome, out = native_replay(lr.SPEC_REL, 'spec', sfs, v['harness'], v['inputs'], sc, extra_overlay=extra)
+            rep.coverage['traces_validated_against_impl'] = rep.coverage.get('traces_validated_against_impl', 0) + 1
+            what = '%s: %s inputs=%s native=%s' % (v['harness'], v['msg'][:300], [(i['name'], i['value']) for i in v['inputs'] or []], outcome)
+            if outcome.startswith('assert-failed') or outcome.startswith('panic'):
+                rep.violation(what, {'harness': v['harness'], 'pkg': lr.SPEC_REL, 'inputs': v['inputs'], 'msg': v['msg'], 'native': outcome})
+            else:
+                rep.inconc('counterexample did not reproduce natively: ' + what)
+        # patterns: histories and two goroutines
+        import c09
+        pfs = c09.files(sc, 4)
+        for watch, sw, label in ((None, 0, 'nfa.Parse of every ordered pair of 8 patterns (well-formed, semantically and syntactically defective): outcome before = outcome after; the two on two goroutines without preemption'),
+                                 ([c09.PKG + '.', '(*' + c09.PKG + '.', MODULE + '/internal/regex/parser.'], 1, 'the same with one context switch at calls/loads/stores inside emerge\'s own pattern packages')):
+            kw = dict(watch=watch, max_switches=sw) if watch else {}
+            cfg = c09.cfg(pfs, 'harnessC17Patterns', tier, max_violations=6, max_steps=80000000, **kw)
+            res = run_gosym(cfg, sc, 'patterns%d' % sw, timeout=6 * 3600)
+            merge_gosym(rep, res, label)
+            vs = res.get('violations') or []
+            if vs:
+                v = vs[0]
+                outcome, out = native_replay(c09.REL, 'nfa', pfs, v['harness'], v['inputs'], sc)
+                rep.coverage['traces_validated_against_impl'] = rep.coverage.get('traces_validated_against_impl', 0) + 1
+                detail = outcome
+                confirmed = outcome.startswith('assert-failed') or outcome.startswith('panic')
+                if not confirmed:
+                    # schedule-dependent: real goroutines under the race detector
+                    ov = overlay_map(c09.REL, list(pfs) + [os.path.join(c09.HDIR, 'zz_verif_race_test.go')])
+                    op = sc.path('overlay_race_nfa.json')
+                    import json
+                    with open(op, 'w') as f:
+                        json.dump({'Replace': ov}, f)
+                    p = subprocess.run(['go', 'test', '-tags', 'verif', '-race', '-vet=off', '-count=1', '-overlay', op, '-run', '^TestVerifRace$', './' + c09.REL],
+                                       cwd=REPO, env=go_env(), stdout=subprocess.PIPE, stderr=subprocess.STDOUT, text=True, timeout=1200)
+                    m = re.search(r'WARNING: DATA RACE\n(?:.*\n){1,6}', p.stdout) or re.search(r'VERIF-RACE-RESULT.*', p.stdout)
+                    confirmed = bool(m)
+                    detail = (m.group(0) if m else p.stdout[-300:]).replace('\n', ' | ')[:400]
+                what = '%s: %s; schedule: %s; native: %s' % (v['harness'], v['msg'][:300], (v.get('tags') or [])[:2], detail)
+                if confirmed:
+                    rep.violation(what, {'harness': v['harness'], 'pkg': c09.REL, 'inputs': v['inputs'], 'schedule': v.get('tags'), 'msg': v['msg'], 'native': detail})
+                else:
+                    rep.inconc('counterexample not confirmed natively: ' + what)
         rep.assumptions += [
             'threads are coroutines of the interpreter; preemption points = calls, loads, stores and map accesses inside the watched functions; everything else runs atomically',
             'bounded number of context switches per schedule; data are a few concrete lists / specifications (the symbolic dimension is the schedule)',
